@@ -1,4 +1,5 @@
 import MpfVerif.Lemmas.Credits
+import MpfVerif.Lemmas.CreditsGen
 import MpfVerif.Gen.Credits
 /-!
 # C20 — credits: the balance follows the pricing table and stays within bounds
@@ -35,76 +36,28 @@ theorem balance_ledger (c : Cfg) (h : WF c = true) (ops : List Op) :
 game price was available before it — in every state, reachable or not. -/
 theorem start_needs_full_price (c : Cfg) (s : St) (op : Op)
     (hp : players (act c s op) > players s) (hf : s.freePlay = false) : s.units ≥ upg c := by
-  cases op with
-  | start =>
+  by_cases hop : op = .start
+  · subst hop
     simp only [act] at hp
     split at hp
     · split at hp
       · rename_i he; simpa [enough, hf] using he
-      · omega
+      · simp [notEnough, players, *] at hp
     · split at hp
-      · rename_i he; simpa [enough, hf] using he.2.2
+      · split at hp
+        · rename_i he; simpa [enough, hf] using he
+        · simp [notEnough, players, *] at hp
       · omega
-  | drain =>
-    have : players (act c s .drain) ≤ players s := by
-      simp only [act]
-      split
-      · omega
-      · rename_i g hg
-        unfold ballStarting gameOver
-        repeat' split
-        all_goals simp [players, hg]
+  · have := players_not_grow c s op hop
     omega
-  | endGame =>
-    have : players (act c s .endGame) ≤ players s := by
-      simp only [act]
-      split
-      · omega
-      · unfold gameOver; split <;> simp [players]
-    omega
-  | coin i => exact absurd hp (by rw [game_unchanged c s (.coin i) (by simp) (by simp) (by simp)]; omega)
-  | service => exact absurd hp (by rw [game_unchanged c s .service (by simp) (by simp) (by simp)]; omega)
-  | event j => exact absurd hp (by rw [game_unchanged c s (.event j) (by simp) (by simp) (by simp)]; omega)
-  | adv n => exact absurd hp (by rw [game_unchanged c s (.adv n) (by simp) (by simp) (by simp)]; omega)
-  | fpOn => exact absurd hp (by rw [game_unchanged c s .fpOn (by simp) (by simp) (by simp)]; omega)
-  | fpOff => exact absurd hp (by rw [game_unchanged c s .fpOff (by simp) (by simp) (by simp)]; omega)
-  | toggle => exact absurd hp (by rw [game_unchanged c s .toggle (by simp) (by simp) (by simp)]; omega)
-  | reset => exact absurd hp (by rw [game_unchanged c s .reset (by simp) (by simp) (by simp)]; omega)
-  | slam => exact absurd hp (by rw [game_unchanged c s .slam (by simp) (by simp) (by simp)]; omega)
-  | earnReset => exact absurd hp (by rw [game_unchanged c s .earnReset (by simp) (by simp) (by simp)]; omega)
 
 /-- only the start button makes the number of players grow -/
 theorem players_grow_only_by_start (c : Cfg) (s : St) (op : Op) (hp : players (act c s op) > players s) :
     op = .start := by
-  cases op with
-  | start => rfl
-  | drain =>
-    have : players (act c s .drain) ≤ players s := by
-      simp only [act]
-      split
-      · omega
-      · rename_i g hg
-        unfold ballStarting gameOver
-        repeat' split
-        all_goals simp [players, hg]
+  by_cases hop : op = .start
+  · exact hop
+  · have := players_not_grow c s op hop
     omega
-  | endGame =>
-    have : players (act c s .endGame) ≤ players s := by
-      simp only [act]
-      split
-      · omega
-      · unfold gameOver; split <;> simp [players]
-    omega
-  | coin i => exact absurd hp (by rw [game_unchanged c s (.coin i) (by simp) (by simp) (by simp)]; omega)
-  | service => exact absurd hp (by rw [game_unchanged c s .service (by simp) (by simp) (by simp)]; omega)
-  | event j => exact absurd hp (by rw [game_unchanged c s (.event j) (by simp) (by simp) (by simp)]; omega)
-  | adv n => exact absurd hp (by rw [game_unchanged c s (.adv n) (by simp) (by simp) (by simp)]; omega)
-  | fpOn => exact absurd hp (by rw [game_unchanged c s .fpOn (by simp) (by simp) (by simp)]; omega)
-  | fpOff => exact absurd hp (by rw [game_unchanged c s .fpOff (by simp) (by simp) (by simp)]; omega)
-  | toggle => exact absurd hp (by rw [game_unchanged c s .toggle (by simp) (by simp) (by simp)]; omega)
-  | reset => exact absurd hp (by rw [game_unchanged c s .reset (by simp) (by simp) (by simp)]; omega)
-  | slam => exact absurd hp (by rw [game_unchanged c s .slam (by simp) (by simp) (by simp)]; omega)
-  | earnReset => exact absurd hp (by rw [game_unchanged c s .earnReset (by simp) (by simp) (by simp)]; omega)
 
 /-- **exact deduction**: a request that makes the number of players grow in credit play adds exactly one player,
 takes exactly one game price off the balance and counts one paid game. -/
@@ -120,14 +73,17 @@ theorem deduct_exactly_price (c : Cfg) (s : St) (op : Op)
   split at hp
   · rename_i hg
     split at hp
-    · simp [*, players, gameStarted, joinPlayer, playerAdded, updStrings, ballStarting]
+    · simp [*, players, gameStarted, joinPlayer, playerAdded, updStrings, ballStarting, controlInhibit]
       omega
-    · omega
+    · simp [notEnough, players, *] at hp
   · rename_i g hg
     split at hp
     · rename_i hc
-      simp [hg, hc, players, joinPlayer, playerAdded, updStrings, hf, hd]
-      omega
+      split at hp
+      · rename_i he
+        simp [hg, hc, he, players, joinPlayer, playerAdded, updStrings, hf, hd, controlInhibit]
+        omega
+      · simp [notEnough, players, *] at hp
     · omega
 
 /-- in free play a joining player costs nothing -/
@@ -141,11 +97,14 @@ theorem free_play_no_deduction (c : Cfg) (s : St) (op : Op)
   · rename_i hg
     split at hp
     · simp [*, gameStarted, joinPlayer, ballStarting]
-    · omega
+    · simp [notEnough, players, *] at hp
   · rename_i g hg
     split at hp
     · rename_i hc
-      simp [hc, joinPlayer, hf]
+      split at hp
+      · rename_i he
+        simp [hc, he, joinPlayer, hf]
+      · simp [notEnough, players, *] at hp
     · omega
 
 /-- **audits = coins accepted**: over every history without an earnings reset, from any state, the coin count and the
@@ -203,6 +162,47 @@ theorem gen_player_added (c : Cfg) (s : St) :
   unfold deductUnits Gen.Credits.playerAdded
   simp only []
 
+/-- **tie to the source (4)**: seven handlers of credits.py, *as regenerated from the source on this run*
+(`Gen/CreditsOps.lean`, programs for the stateful interpreter `Model/PyStore.lean`), do exactly what the hand model does:
+running the generated program on the object state of `s` and folding everything it did (variable and attribute writes,
+events posted, delays set and removed, calls of the display / audit / enable methods) over `s` gives the hand model's next
+state (ghost ledger aside), nothing it did is without a meaning in the model, and it returns what the model says.
+The start gates (`_request_to_start_game`, `_player_add_request`): approved iff a full price is there, a refusal posts
+`not_enough_credits`; `_game_started` / `_game_ended` (expiration delays removed / restarted, tier counter and flag);
+the two expirations `_clear_fractional_credits` (for a positive number of units per game) and `clear_all_credits`;
+`toggle_credit_play`.  In credit play (`hf`) where the handler is only registered there. -/
+theorem handlers_refine_source (c : Cfg) (s : St) :
+    (s.freePlay = false →
+      genRun c s Gen.CreditsOps.p_request_to_start_game [] =
+        (core (if enough c s then s else notEnough s), false, some (.bool (enough c s))) ∧
+      genRun c s Gen.CreditsOps.p_player_add_request [] =
+        (core (if enough c s then s else notEnough s), false, some (.bool (enough c s))) ∧
+      genRun c s Gen.CreditsOps.p_game_started [] = (core (gameStarted s), false, some .none) ∧
+      genRun c s Gen.CreditsOps.p_game_ended [] =
+        (core { (resetTimeouts c s) with resetThisGame := false }, false, some .none)) ∧
+    (0 < upg c → genRun c s Gen.CreditsOps.p_clear_fractional_credits [] = (core (clearFrac c s), false, some .none)) ∧
+    genRun c s Gen.CreditsOps.clear_all_credits [] = (core (clearAll s), false, some .none) ∧
+    genRun c s Gen.CreditsOps.toggle_credit_play [] = (core (togglePlay c s), false, some .none) :=
+  ⟨fun hf => ⟨request_to_start_gen c s hf, player_add_request_gen c s hf, game_started_gen c s hf, game_ended_gen c s hf⟩,
+   clear_fractional_gen c s, clear_all_gen c s, toggle_gen c s⟩
+
+/-- hence, in the source as it is now: the start gate approves a request in credit play only with a full price -/
+theorem source_gate_needs_full_price (c : Cfg) (s : St) (hf : s.freePlay = false)
+    (h : (genRun c s Gen.CreditsOps.p_request_to_start_game []).2.2 = some (.bool true) ∨
+         (genRun c s Gen.CreditsOps.p_player_add_request []).2.2 = some (.bool true)) : s.units ≥ upg c := by
+  rw [request_to_start_gen c s hf, player_add_request_gen c s hf] at h
+  simp [enough, hf] at h
+  exact h
+
+/-- a power cycle never creates credits: the balance after it is the balance before or zero (from any state) -/
+theorem reboot_keeps_or_drops (c : Cfg) (s : St) (off : Nat) :
+    (act c s (.reboot off)).units = s.units ∨ (act c s (.reboot off)).units = 0 := by
+  have hb : ∀ x : St, (boot c x).units = x.units := by intro x; simp only [boot]; split <;> rfl
+  simp only [act, reboot, hb]
+  split
+  · exact Or.inl rfl
+  · exact Or.inr rfl
+
 /-- the hypotheses are satisfiable: the test-suite configuration (quarter and dollar coins, 50 ct per credit,
 5 credits for $2, at most 12 credits) is well-formed, two dollars buy 5 credits, and the 12-credit cap holds -/
 example :
@@ -211,5 +211,12 @@ example :
     (run c (init c) [.coin 1, .coin 1, .coin 1, .coin 1, .coin 1, .coin 0, .coin 0, .coin 1]).units = 24 ∧
     (run c (init c) [.coin 1, .start, .start, .start]).units = 0 ∧
     players (run c (init c) [.coin 1, .start, .start, .start]) = 2 := by decide
+
+/-- power cycles are reachable and both outcomes occur: with `persist_credits_while_off_time: 8s` a dollar's credits
+survive 5 s without power and are gone after 9 s; and the generated start gate refuses an empty machine -/
+example :
+    let c : Cfg := { maxCredits := 12, coins := [25, 100], tiers := [(50, 1)], persist := 8 }
+    (run c (init c) [.coin 1, .reboot 5]).units = 4 ∧ (run c (init c) [.coin 1, .reboot 9]).units = 0 ∧
+    (init c).freePlay = false ∧ enough c (init c) = false := by decide
 
 end MpfVerif.C20
